@@ -22,7 +22,7 @@
      x/distributor/keeper/distributor.go     inflation mint, validator pay-out (out of unallocated fees)
      layer2 dapp bonds, collectives bonds/donations, recovery-token backing: the generic escrow book
      layer2 MintCreate*Tx fee burn, MintIssueTx / MintBurnTx *)
-From Sekai Require Import Base.Prelude Base.Dec.
+From Sekai Require Import Base.Prelude Base.Dec Gen.MintBurnSites.
 
 (* ---------------------------------------------------------------- accounts *)
 Definition FC : Z := 1.      (* fee_collector *)
@@ -186,11 +186,23 @@ Inductive bop : Type :=
      (* ClaimSpendingPool for each (beneficiary, duration, weight): one claim message, or the
         SpendingPoolDistribution proposal (all beneficiaries, atomically); rates: denom -> Dec per second *)
 | BkMintC (u b : Z) (deps : list (Z * Z * Z))   (* MintBasketToken: deposits (denom, amount, weight of the denom in the basket) *)
-| BkBurnC (u b t : Z) (ds : list Z).            (* BurnBasketToken: ds = the basket's tokens with withdraws enabled *)
+| BkBurnC (u b t : Z) (ds : list Z)             (* BurnBasketToken: ds = the basket's tokens with withdraws enabled *)
+(* round 3: Undelegate with the repaired redemption (GetRedeemPoolCoins: shares burnt pro rata to the pool's books,
+   rounded up), and "Undelegate as the tree implements it" -- the shape is read from the source by the translator
+   (Gen.MintBurnSites.undelegate_pro_rata).  MsUndelegate above stays the old shape (amount*(1-slashed)). *)
+| MsUndelegateR (u p d x id : Z)
+| MsUndelegateT (u p d x id : Z).
 
 (* GetPoolCoins: RoundInt(amount * (1 - Slashed)) *)
 Definition pool_coin (sl x : Z) : Z := round_int (chop_round (dec_of_int x * (dec_one - sl))).
 Definition slashed_of (s : state) (p : Z) : Z := auxv s A_SLASHED p 0.
+(* GetRedeemPoolCoins: ceil(amount * shares / stake); pool.TotalShareTokens moves with the bank supply of the share
+   token in Delegate/Undelegate (the harness checks record = supply at every observation) *)
+Definition redeem_burn (S K x : Z) : Z := (x * S + (K - 1)) / K.
+Definition undel_effs (u p d x id sh : Z) : list eff :=
+  [ESend u MS (share p d) sh; EBurn MS (share p d) sh; EBook MS K_STAKED p d (- x); EBook MS K_UNDEL id d x].
+Definition undel_guard (s : state) (u p d x id : Z) : bool :=
+  is_user u && is_native d && (1 <=? p) && (p <? 1000) && (0 <? x) && (book s MS K_UNDEL id d =? 0).
 
 Fixpoint nodupb (l : list Z) : bool := match l with [] => true | x :: r => negb (existsb (Z.eqb x) r) && nodupb r end.
 
@@ -247,9 +259,15 @@ Definition compile (o : bop) (s : state) : option (list eff) :=
       guard (is_user u && is_native d && (1 <=? p) && (p <? 1000) && (slashed_of s p =? 0) && (0 <? x))
         [ESend u MS d x; EBook MS K_STAKED p d x; EMint MINT (share p d) x; ESend MINT u (share p d) x]
   | MsUndelegate u p d x id =>
-      let sh := pool_coin (slashed_of s p) x in
-      guard (is_user u && is_native d && (1 <=? p) && (p <? 1000) && (0 <? x) && (book s MS K_UNDEL id d =? 0))
-        [ESend u MS (share p d) sh; EBurn MS (share p d) sh; EBook MS K_STAKED p d (- x); EBook MS K_UNDEL id d x]
+      guard (undel_guard s u p d x id) (undel_effs u p d x id (pool_coin (slashed_of s p) x))
+  | MsUndelegateR u p d x id =>
+      let K := book s MS K_STAKED p d in
+      guard (undel_guard s u p d x id && (0 <? K)) (undel_effs u p d x id (redeem_burn (supply s (share p d)) K x))
+  | MsUndelegateT u p d x id =>
+      let K := book s MS K_STAKED p d in
+      if undelegate_pro_rata
+      then guard (undel_guard s u p d x id && (0 <? K)) (undel_effs u p d x id (redeem_burn (supply s (share p d)) K x))
+      else guard (undel_guard s u p d x id) (undel_effs u p d x id (pool_coin (slashed_of s p) x))
   | MsClaimUndel v id d =>
       let x := book s MS K_UNDEL id d in
       guard (is_user v) [ESend MS v d x; EBook MS K_UNDEL id d (- x)]
@@ -368,6 +386,13 @@ Definition shares_match (s : state) : Prop :=
 Definition shares_redeemable (s : state) : Prop :=
   forall p d x, 1 <= p < 1000 -> 0 <= d < 100 -> 0 <= x -> pool_coin (slashed_of s p) x <= supply s (share p d) ->
                 x <= book s MS K_STAKED p d.
+(* repaired redemption: whatever holdings hs the share supply is split into, and whatever each holder redeems
+   within his holding (burn <= holding), the redemptions together never exceed the stake -- slashed or not *)
+Definition shares_redeemable_pro_rata (s : state) : Prop :=
+  forall p d (rs : list (Z * Z)), let S := supply s (share p d) in let K := book s MS K_STAKED p d in
+    0 < K -> 0 < S ->
+    Forall (fun r => 0 <= snd r /\ redeem_burn S K (snd r) <= fst r) rs ->     (* (holding, redeemed) *)
+    zsum (map fst rs) <= S -> zsum (map snd rs) <= K.
 Definition is_slash (o : bop) : bool := match o with MsSlash _ _ _ => true | _ => false end.
 Definition item_no_slash (it : item) : bool :=
   match it with ITx _ _ _ msgs => forallb (fun o => negb (is_slash o)) msgs | IAct ops => forallb (fun o => negb (is_slash o)) ops end.
